@@ -27,7 +27,51 @@ NEED_OPS = ["shape:-", "corrupt:drop", "corrupt:null", "corrupt:retype", "corrup
             "corrupt:num", "corrupt:doc", "corrupt:tag_swap", "corrupt:tag_two"]
 
 
+def replay(ctx):
+    """bin/check C14 --replay out/C14/replay-*.json : re-run exactly that case on the real codec (no evidence written)."""
+    d = json.load(open(ctx.replay))
+    rp = d.get("replay") or {}
+    env = {"VERIF_REPLAY": "1", "VERIF_BYTE_MUTATIONS": "0", "VERIF_TRACE_N": "0", "VERIF_REGISTRY_RANDOM": "0", "VERIF_VALUATIONS": "3"}
+    cases = []
+    inner = rp.get("case") if isinstance(rp.get("case"), dict) else None
+    if "input_b64" in rp:
+        env["VERIF_REPLAY_REG_B64"] = rp["input_b64"]
+        env["VERIF_REPLAY_REG"] = rp.get("call", "Registry.Unmarshal")
+    elif inner and "corr" in inner and "shape" in inner:
+        cases = [{"op": "corrupt", "base": 0, "shape": inner["shape"], "corr": inner["corr"], "exp_asis": {}, "exp_design": {}, "variant": "-"}]
+    elif rp.get("src") == "byte-mutation" and rp.get("bytes_b64"):
+        env["VERIF_REPLAY_BYTES_B64"] = rp["bytes_b64"]
+    elif "shape" in rp or (inner and "variant" in inner):
+        cases = [{"op": "shape", "base": 0, "shape": rp.get("shape") or inner, "corr": {"op": "-", "path": [], "arg": "-"},
+                  "exp_asis": {}, "exp_design": {}, "variant": "-"}]
+    else:
+        raise vlib.Inconclusive("replay file has no replayable case")
+    tin = ctx.path("cases.ndjson")
+    with open(tin, "w") as f:
+        for c in cases:
+            f.write(json.dumps(c) + "\n")
+    pkg = "tm/tmcodec/tmjson"
+    out = ctx.path("out.ndjson")
+    env.update({"VERIF_IN": tin, "VERIF_OUT": out, "VERIF_TRACE": ctx.path("trace.ndjson"), "VERIF_SEED": str(ctx.seed)})
+    rc, o = ctx.go_test(pkg, "^TestVerifC14$", env=env, overlay=ctx.harness_overlay(pkg), timeout=900)
+    recs = vlib.read_ndjson(out)
+    if rc != 0 or not [r for r in recs if r.get("kind") == "summary"]:
+        raise vlib.Inconclusive("C14 replay harness failed rc=%s\n%s" % (rc, o[-2000:]))
+    for r in recs:
+        if r.get("kind") == "violation":
+            ctx.violation(r["predicate"], r["site"], r["class"], r["what"], replay_obj=r.get("case"))
+    for k in ctx.known_seen:
+        print("KNOWN-FINDING: property=%s %s" % (ctx.pid, k["known"].get("what", k["what"])))
+    for v in ctx.violations:
+        print("VIOLATION property=%s replay=%s\n  %s" % (ctx.pid, v["replay"] or "-", v["what"]))
+    if not ctx.violations and not ctx.known_seen:
+        print("replayed case: every predicate held on the real code")
+    return 1 if ctx.violations else 0
+
+
 def run(ctx):
+    if ctx.replay:
+        return replay(ctx)
     quick = ctx.quick()
     # 1. design + export in one TLC pass (both registry variants are characterised by the raw outcome "short")
     r = ctx.tlc("Codec", "Codec_mc.cfg", timeout=3000, defines={"MaxDist": 1 if quick else 2, "CorrDist": 0})
